@@ -22,6 +22,13 @@ type Ledger struct {
 	everCurrent map[flEntry]bool
 }
 
+func (l *Ledger) markCurrent(b types.Block) {
+	if l.everCurrent == nil {
+		l.everCurrent = map[flEntry]bool{}
+	}
+	l.everCurrent[flEntry{uint64(b.Offset), uint32(b.Size)}] = true
+}
+
 func (l *Ledger) noteCurrent(w *World) {
 	if l.everCurrent == nil {
 		l.everCurrent = map[flEntry]bool{}
